@@ -39,6 +39,8 @@ pub struct State {
     pub pos: usize,
     /// the stream ends (read returns 0) once `pos` reaches this offset
     pub eof_at: Option<usize>,
+    /// at `eof_at` the read fails with an I/O error instead of reporting the end of the stream
+    pub fail_instead_of_eof: bool,
     /// bytes beyond this offset are not released yet (the peer waits for the client's answer)
     pub released: usize,
     pub log: Vec<Ev>,
@@ -67,6 +69,7 @@ impl Scripted {
                 incoming,
                 pos: 0,
                 eof_at: None,
+                fail_instead_of_eof: false,
                 released,
                 log: vec![],
                 chunking,
@@ -97,6 +100,9 @@ impl AsyncRead for Scripted {
         if avail == 0 {
             if st.eof_at.map(|e| st.pos >= e).unwrap_or(false) {
                 st.log.push(Ev::Eof);
+                if st.fail_instead_of_eof {
+                    return Poll::Ready(Err(std::io::Error::new(std::io::ErrorKind::ConnectionReset, "connection reset by the scripted peer")));
+                }
                 return Poll::Ready(Ok(())); // end of stream
             }
             // nothing to deliver and no end of stream: the reader is blocked on the peer
